@@ -387,6 +387,62 @@ def random_kills(run, base, n, seed):
     run.traces += n
 
 
+def system_restarts(run, quick):
+    """The restart as it happens in production: the whole KmipServer process (start-up code included) is stopped - gracefully,
+    and by SIGKILL while idle - and started again on the same configuration and database.  Everything that had been
+    acknowledged must still be there, row for row."""
+    import shutil
+    from .. import sysdrv
+    from . import c05
+    sysdrv.install_wrap_socket()
+    from kmip.core import enums as kenums
+    from kmip.pie import objects as pobj
+    root = os.path.join(common.scratch(), "sys09")
+    sysm = sysdrv.System(root, tls_client_auth=True)
+    cert = sysm.issue("alice", ["alice"], "client")
+    r = random.Random(common.SEED + 9)
+    try:
+        sysm.start()
+        cl = sysm.client(cert[0], cert[1], ver=(1, 2))
+        cl.open()
+        n = 0
+        for i in range(6 if quick else 20):
+            key = pobj.SymmetricKey(kenums.CryptographicAlgorithm.AES, 128, bytes(r.getrandbits(8) for _ in range(16)),
+                                    masks=[kenums.CryptographicUsageMask.ENCRYPT], name="k%d" % i)
+            extra = {"groups": ["og%d" % (i % 3)] if i % 2 else [], "appinfo": [("ns", "d%d" % i)] if i % 3 == 0 else [], "sensitive": False}
+            c05.register_with_attributes(cl, key, extra, (1, 2))
+            n += 1
+            if i % 4 == 3:
+                cl.create_key_pair(kenums.CryptographicAlgorithm.RSA, 1024, public_usage_mask=[kenums.CryptographicUsageMask.VERIFY],
+                                   private_usage_mask=[kenums.CryptographicUsageMask.SIGN])
+        cl.close()
+        sysm.stop()
+        acknowledged = dump(sysm.db)
+        for how in ("graceful", "killed-while-idle", "graceful"):
+            sysm.start()
+            if how == "killed-while-idle":
+                time.sleep(0.5)
+                os.killpg(sysm.proc.pid, signal.SIGKILL)
+                sysm.proc.join(10)
+                sysm.proc = None
+            else:
+                sysm.stop()
+            now = dump(sysm.db)
+            broken, notes = fresh_check(sysm.db)
+            run.case(("system-restart", how, now == acknowledged, broken))
+            if now != acknowledged or broken:
+                run.violation("C09_restart", {"how": how, "level": "system"},
+                              {"rows_missing_after_restart": sorted(set(acknowledged) - set(now))[:12],
+                               "rows_new_after_restart": sorted(set(now) - set(acknowledged))[:12], "problems": notes,
+                               "objects_registered": n})
+                break
+        run.traces += 3
+        run.extra["system_restarts"] = 3
+    finally:
+        sysm.stop()
+        shutil.rmtree(root, ignore_errors=True)
+
+
 def check(run, tier):
     quick = tier == "quick"
     run.rule = ("leg A: TLC, Durability.tla / MC_C09: Begin / Write (rows in ORM flush order, both keys of a pair) / Commit / Ack "
@@ -505,4 +561,5 @@ def check(run, tier):
     run.extra["sql_events_per_operation"] = {k: v["events"] for k, v in info.items()}
     run.sample({"experiment": recs[5]["id"], "events_before_crash": recs[5]["events"], "recovered_equals_pre": set(recs[5]["rec"]) == set(pre)})
     random_kills(run, base, 8 if quick else 80, common.SEED)
+    system_restarts(run, quick)
     run.assumptions.append("process death (os._exit / SIGKILL), not power loss: SQLite's atomic commit and journal recovery are assumed")
